@@ -152,7 +152,7 @@ FSM's response was checked — `applyMessageWait` waits on `f.Error()` itself (n
 that could let it return while the entry is still in flight: a client that is told "failed" retries, and a
 retry of an entry that commits later is a duplicate), and the id is taken only afterwards -/
 theorem C05_ack_after_commit :
-    Robust.Gen.Exprs.fact "apply.wait" = "nil != recv.raftNode.Apply(local:[]byte, param2).Error() => return recv.raftNode.Apply(local:[]byte, param2).Error()" ∧
+    Robust.Gen.Exprs.fact "apply.wait" = "nil != recv.raftNode.Apply(_).Error() => return recv.raftNode.Apply(_).Error()" ∧
     Robust.Gen.Exprs.fact "apply.async" = "0" ∧
     Robust.Gen.Exprs.fact "apply.idAfterErrorCheck" = "true" := by decide
 
